@@ -186,7 +186,19 @@ pub fn gen(ctx: &mut Ctx) {
                     let mut k = ctx.rng.below(256) as i128;
                     while known.contains(&k) || (1..=9).contains(&k) { k = ctx.rng.range(10, 255) as i128; }
                     Value::Integer((k as u64).into())
-                } else { Value::Text(format!("x{}", text(ctx))) };
+                } else if ctx.rng.bool() { Value::Text(format!("x{}", text(ctx))) } else {
+                    // a member's own name in another case, or with a character more or less: still no member name
+                    let names: &[&str] = match schema {
+                        "makeCredentialRequest" => &["clientDataHash", "rp", "user", "pubKeyCredParams", "excludeList", "extensions", "options", "pinAuth", "pinProtocol"],
+                        "makeCredentialResponse" => &["fmt", "authData", "attStmt", "epAtt", "largeBlobKey"],
+                        "getAssertionRequest" => &["rpId", "clientDataHash", "allowList", "extensions", "options", "pinAuth", "pinProtocol"],
+                        "getAssertionResponse" => &["credential", "authData", "signature", "user", "numberOfCredentials"],
+                        "getInfoResponse" => &["versions", "extensions", "aaguid", "options", "maxMsgSize", "pinProtocols", "transports"],
+                        _ => &["keyAgreement", "saltEnc", "saltAuth", "pinUvAuthProtocol"] };
+                    let n = *ctx.rng.pick(names);
+                    let v = match ctx.rng.below(5) { 0 => n.to_uppercase(), 1 => n.to_lowercase(), 2 => format!("{}{}", &n[..1].to_uppercase(), &n[1..]), 3 => format!("{}_", n), _ => n[..n.len() - 1].to_string() };
+                    if v == n { Value::Text(format!("{}x", n)) } else { ctx.stat("ctap.unknown_key.member_name_in_another_case"); Value::Text(v) }
+                };
                 let val = match ctx.rng.below(4) { 0 => Value::Null, 1 => Value::Bytes(ctx.rng.bytes_in(0, 9)), 2 => Value::Array(vec![Value::Bool(true), Value::Map(vec![])]), _ => Value::Integer(7.into()) };
                 m.insert(pos, (key, val));
                 let b = pack(m);
